@@ -36,7 +36,12 @@ def gen_scripts(pid, tier, seed):
                 cfg = M.gen_cfg(rng, algo=algo, single=True, mode="concrete", hasher="id")
                 cfg["cap"] = rng.choice([3, 4, 6, 8]); cfg["univ"] = rng.choice([8, 12, 16])
                 scripts.append(M.script_text(cfg, M.gen_hot_ops(rng, cfg, rng.choice([40, 80, 150]))))
-        rule.append(f"{per} random scripts per algorithm (single shard, length 8..80, several ratio/threshold configs) + "
+        for _ in range(per // 4):
+            cfg = M.gen_cfg(rng, algo="lru", single=True, mode="concrete", hasher="id")
+            cfg["cap"] = rng.choice([3, 4, 6, 8]); cfg["univ"] = rng.choice([6, 8, 12]); cfg["hp"] = rng.choice([0.3, 0.5, 0.75, 0.9])
+            scripts.append(M.script_text(cfg, M.gen_lru_pin_ops(rng, cfg, rng.choice([20, 40, 80]))))
+        rule.append(f"{per // 4} LRU scripts with held lookups released while the high-priority pool is full + "
+                    f"{per} random scripts per algorithm (single shard, length 8..80, several ratio/threshold configs) + "
                     f"{per // 6} skewed traces per algorithm (hot keys looked up 1..8 times in a row between streams of cold keys)")
     else:
         per = 6000 if thorough else 280
